@@ -1,7 +1,7 @@
 (* C08 (DRR part) -- packets are never lost, duplicated or invented by the DRR scheduler.
    Only statements, closed by the lemma that proves them, and their assumptions.  Model: Elem/DRR.v. *)
 From Coq Require Import ZArith QArith List Bool.
-From ONL Require Import Elem.Packet Elem.StoreQ Elem.DRR Elem.DRRInv Elem.DRRProofs.
+From ONL Require Import Elem.Packet Elem.StoreQ Elem.DRR Elem.DRRInv Elem.DRRProofs Elem.DRRLive.
 Import ListNotations.
 
 (* for every admissible execution and every class: the packets put in are exactly the packets forwarded followed by the
@@ -27,3 +27,21 @@ Theorem C08_drr_drained : forall (cfg : dcfg) (t0 : Q) (acts : list daction) (d 
   (forall p dl, dchd d <> DCTx p dl) -> forall c, dheld cfg d c = [].
 Proof. exact drr_drained_l. Qed.
 Print Assumptions C08_drr_drained.
+
+(* no admissible execution over the configured classes reaches an error state (the model's only failures are disabled
+   actions): every action whose guard holds is accepted -- the run() process never raises and never spins *)
+Theorem C08_drr_no_error : forall (cfg : dcfg) (t0 : Q) (acts : list daction) (d : drr) (tr : list dtev),
+  dwf cfg -> drr_run cfg (drr0 t0) acts = Some (d, tr) ->
+  (dctrl d = DKFresh -> exists r, drr_act cfg d DInit = Some r)
+  /\ (forall x, get (dtok d) = GGranted x -> exists r, drr_act cfg d (DGetDone None) = Some r)
+  /\ (forall c x, get (dst d c) = GGranted x -> exists r, drr_act cfg d (DGetDone (Some c)) = Some r)
+  /\ (forall p, dchd d = DCStart p -> exists r, drr_act cfg d DChildInit = Some r)
+  /\ (forall p dl, dchd d = DCTx p dl -> dl == dnow d -> exists r, drr_act cfg d DChildTimer = Some r)
+  /\ (forall p, dchd d = DCDone p -> exists r, drr_act cfg d DChildEnd = Some r)
+  /\ ((pend (dtok d) > 0)%nat -> exists r, drr_act cfg d (DStoreCb None) = Some r)
+  /\ (forall c, In c (dclasses cfg) -> (pend (dst d c) > 0)%nat -> exists r, drr_act cfg d (DStoreCb (Some c)) = Some r)
+  /\ (forall p, In (dcls cfg p) (dclasses cfg) -> (0 < psize p)%Z -> exists r, drr_act cfg d (DPut p) = Some r)
+  /\ (forall t, durgent cfg d = false -> dnow d < t -> (forall p dl, dchd d = DCTx p dl -> t <= dl) ->
+      exists r, drr_act cfg d (DAdvance t) = Some r).
+Proof. exact drr_progress_l. Qed.
+Print Assumptions C08_drr_no_error.
